@@ -41,7 +41,7 @@ EXPLANATION = (
     "inside numpy)."
 )
 # obligations added during the build phase (seeding rounds, twins, mutation analysis)
-ADDED_IN_BUILD = ' Also: NONEMPTY covers the candidate sets of the dynamic programmes (C02.b / C03.c BELLMAN candidates re-run: the newest admissible start is always among them, so argmin / argmax never see an empty set for max_segment_length == min_segment_length). Violations of the seeded / circular drivers\' other rules are not repeated under C14 (only NONEMPTY and undecided obligations are shared).'
+ADDED_IN_BUILD = ' Also: NONEMPTY covers the candidate sets of the dynamic programmes (C02.b / C03.c BELLMAN candidates re-run: the newest admissible start is always among them, so argmin / argmax never see an empty set for max_segment_length == min_segment_length). Violations of the seeded / circular drivers\' other rules are not repeated under C14 (only NONEMPTY and undecided obligations are shared). (a) every-path: boolean hyper-parameters are undecided in the constructor scenarios and each domain check must be on every constructing path; unfitted-scorer: the numeric domains are enforced with an arbitrary unfitted user scorer (min_size None) too. (e) TERMINATION (F-30): the greedy selections\' zeroing obligations.'
 EXPLANATION = EXPLANATION + ADDED_IN_BUILD
 
 ASSUMPTIONS = [
